@@ -9,7 +9,7 @@ Adapters == {Ad("enumerate", 0), Ad("filter", 0), Ad("filter_map", 0), Ad("flat_
              Ad("skip", 1), Ad("skip_while", 0), Ad("take", 2), Ad("take_while", 0), Ad("zip", 0)}
 Consumers == {"for_each", "collect", "all", "any", "count", "find", "find_map", "rfind", "fold", "rfold", "next",
               "nth", "position", "rposition"}
-Inputs == << <<>>, <<1>>, <<1, 2, 3, 4>>, <<3, 1, 2>>, <<2, 4, 6, 8, 5>> >>
+Inputs == << <<>>, <<1>>, <<1, 2, 3, 4>>, <<3, 1, 2>>, <<2, 4, 6, 8, 5>>, <<2, 2, 2>> >>
 NthArg == 1
 
 Chains == UNION {[1..k -> Adapters] : k \in 0..Depth}
@@ -26,6 +26,7 @@ ModOf == [q \in 1..Len(Inputs) |-> Model(chain, cons, NthArg, Inputs[q])]
 Agree == KnownShape(chain, cons) \/ ExpOf = ModOf
 
 Line == [m |-> "IterDsl", chain |-> chain, cons |-> cons, n |-> NthArg, exp |-> ExpOf, model |-> ModOf,
+         srcs |-> [q \in 1..Len(Inputs) |-> SetToSeq({sk \in SourceKinds : Denotes(sk, Inputs[q])})],
          known |-> IF KnownShape(chain, cons) THEN 1 ELSE 0, differs |-> IF ExpOf = ModOf THEN 0 ELSE 1]
 EmitInv == Serialize(ToJson(Line) \o "\n", IOEnv.OUT,
                      [format |-> "TXT", charset |-> "UTF-8", openOptions |-> <<"WRITE", "CREATE", "APPEND">>]).exitValue = 0
